@@ -45,8 +45,11 @@ structure Input where
   /-- `Workflow.need_threshold`: DEFAULT when the build is restricted to targets, else OPTIONAL. -/
   threshold : Need
   draining : Bool
-  /-- exact targets that are not a regular output of an attached step -/
+  /-- exact targets that are not a regular output of an attached step and not invalid -/
   missingTargets : Nat
+  /-- exact targets that are attached static files or volatile outputs at the end of the phase
+  (`TARGET_FORBIDDEN_STATES`; normally rejected earlier, see `_report_missing_targets`) -/
+  invalidTargets : Nat := 0
   /-- directory targets without a regular output under them -/
   missingDirs : Nat
   /-- glob matches without a node that nothing justifies -/
@@ -67,12 +70,13 @@ def ntotal (i : Input) : Nat := (i.steps.filter (isPendingRow i.threshold)).leng
 
 /-- The messages `report_unbuilt` and its helpers send to the reporter, in order. -/
 inductive Msg
-  | failed (n : Nat) | draining | pending (n : Nat) | missingTargets (n : Nat) | missingDirs (n : Nat)
-  | globWarnings (n : Nat) | globErrors (n : Nat)
+  | failed (n : Nat) | draining | pending (n : Nat) | invalidTargets (n : Nat) | missingTargets (n : Nat)
+  | missingDirs (n : Nat) | globWarnings (n : Nat) | globErrors (n : Nat)
   deriving DecidableEq, Repr
 
 def Msg.str : Msg → String
   | .failed n => s!"failed:{n}" | .draining => "draining" | .pending n => s!"pending:{n}"
+  | .invalidTargets n => s!"invalid:{n}"
   | .missingTargets n => s!"targets:{n}" | .missingDirs n => s!"dirs:{n}"
   | .globWarnings n => s!"globwarn:{n}" | .globErrors n => s!"globerr:{n}"
 
@@ -91,8 +95,10 @@ def reportUnbuilt (i : Input) : Flags × List Msg :=
   else
     let f2 : Flags := { f1 with pending := decide (0 < ntotal i) }
     let m2 := m1 ++ (if 0 < ntotal i then [Msg.pending (ntotal i)] else [])
-    let f3 : Flags := { f2 with warning := decide (0 < i.missingTargets) || decide (0 < i.missingDirs) }
-    let m3 := m2 ++ (if 0 < i.missingTargets then [Msg.missingTargets i.missingTargets] else []) ++
+    let f3 : Flags := { f2 with failed := f2.failed || decide (0 < i.invalidTargets),
+                                warning := decide (0 < i.missingTargets) || decide (0 < i.missingDirs) }
+    let m3 := m2 ++ (if 0 < i.invalidTargets then [Msg.invalidTargets i.invalidTargets] else []) ++
+      (if 0 < i.missingTargets then [Msg.missingTargets i.missingTargets] else []) ++
       (if 0 < i.missingDirs then [Msg.missingDirs i.missingDirs] else [])
     if f3.isZero then
       let (g, mg) := reportGlobs i
